@@ -24,6 +24,7 @@ SRCS = {
     'nonefirst': 'x = [pre, {**v0, k1: v1, k2: v2}, post]\ng = lambda *, a, b=d1, c=d2: a\n',
     'mixed': 'def f(p, q=1):\n    r = [p, q]  # c\n    return r\nz = f(1, 2)\n',
     'boolops': 'r = (a and b) or c\ns = [x and y, not z]\n',
+    'walrus': 'def f():\n    r = list(g(i := a, j := b) for x in y if (k := x))\n    return [m := n, {q: (s := t) for q in w}]\n',
     'comps': 'def f(p=[u for u in v]):\n    x = [i for i in [j for j in k] if i]\n    return {m: n for m, n in x}\n',
 }
 ACTIONS = ['none', 'replace_self', 'remove_self', 'replace_parent', 'remove_parent', 'remove_grandparent', 'remove_prev', 'remove_next', 'replace_next', 'insert_before']
@@ -120,9 +121,16 @@ def _mk_walk(key, wi, two, start='root'):
         n = 0
         expect_children_of = None
         expect_again = []
+        with pc.untraced():
+            ref_order = [(it_[0] if both else it_) for it_ in wroot.walk(**wkw) if not (both and it_[1])]     # the undisturbed walk: which nodes, in which order
+        orig_ast = {id(f_): f_.a for f_ in ref_order}
+        yielded = set()
+        skip_below = []        # nodes whose descendants are legitimately not walked (send(False))
+        act_at = []            # (index in ref_order of the node at which an action happened)
         gen = wroot.walk(**wkw)
         for item in gen:
             g, leaving = (item if both else (item, leave))
+            yielded.add(id(g))
             n += 1
             check(n <= 8 * (n0 + 8 * (1 + int(two))), 'walk.does_not_terminate', (key, wkw, act1, act2))
             check(g.a is not None and g.root is root, 'walk.yielded_dead_or_foreign_node', (key, wkw, act1, act2, n))
@@ -157,6 +165,12 @@ def _mk_walk(key, wi, two, start='root'):
                 if this_k == kk:
                     res = _do(act, g)
                     cover(res + ('.leave' if leaving else '.enter'))
+                    with pc.untraced():
+                        idx_ = next((i_ for i_, f_ in enumerate(ref_order) if f_ is g), None)
+                        if idx_ is not None:
+                            act_at.append(idx_)
+                    if snd == 1:
+                        skip_below.append(g)
                     if snd == 1:
                         gen.send(False)
                     elif snd == 2 and not wkw.get('scope'):
@@ -177,6 +191,24 @@ def _mk_walk(key, wi, two, start='root'):
                                 expect_children_of = (g,)
                                 expect_again.append(g)
         check(not [e for e in expect_again if e.a is not None and e.root is root], 'walk.node_not_yielded_again_after_send_true_on_leave', (key, wkw, act1, act2))
+        # "after removing it the walk continues with what follows": every node of the undisturbed walk which comes after the (first) action, is still
+        # part of the tree at the end and does not hang below a node for which send(False) was given, must have been yielded
+        with pc.untraced():
+            if act_at and not leave:
+                live = {id(m_.f) for m_ in ast.walk(root.a) if getattr(m_, 'f', None) is not None}
+                for f_ in ref_order[min(act_at) + 1:]:
+                    if id(f_) in yielded or f_.a is None or id(f_) not in live:
+                        continue
+                    anc, below = f_.parent, False
+                    while anc is not None:
+                        if any(anc is sb for sb in skip_below):
+                            below = True
+                        anc = anc.parent
+                    if below:
+                        continue
+                    if orig.get(id(f_)) != type(f_.a).__name__ or f_.a is not orig_ast[id(f_)]:
+                        continue        # the FST object now stands for another AST: a replaced sibling (documented: new nodes are not walked) or re-use by normalisation (listed finding)
+                    fail(f'walk.skipped_a_node_which_follows_and_survived:{key}', (key, wkw, act1, act2, type(f_.a).__name__, pc.R(f_.src)[:40] if f_.loc is not None else ''))
         # final tree: C01
         with pc.untraced():
             pc.o_parse(root, sig + '.final')
@@ -228,10 +260,10 @@ def p2_search_mutate(k: int, act: int):
 
 FNW = ['fst.fst_traverse.walk', 'fst.fst_core._unmake_fst_tree', 'fst.fst_core._set_ast', 'fst.fst_put_one._put_one', 'fst.fst_put_slice._put_slice']
 CELLS = []
-_QW = {('lists', 0), ('lists', 1), ('lists', 3), ('lists', 4), ('block', 0), ('block', 3), ('block', 4), ('mixed', 0), ('mixed', 6), ('nonefirst', 0), ('nonefirst', 2), ('boolops', 0), ('boolops', 3), ('comps', 6), ('comps', 0)}
+_QW = {('walrus', 6), ('walrus', 0), ('lists', 0), ('lists', 1), ('lists', 3), ('lists', 4), ('block', 0), ('block', 3), ('block', 4), ('mixed', 0), ('mixed', 6), ('nonefirst', 0), ('nonefirst', 2), ('boolops', 0), ('boolops', 3), ('comps', 6), ('comps', 0)}
 for _k in SRCS:
     for _wi, _w in enumerate(WALKS):
-        if _w.get('scope') and _k not in ('mixed', 'comps'):
+        if _w.get('scope') and _k not in ('mixed', 'comps', 'walrus'):
             continue
         CELLS.append(Cell(f'P1.walk[{_k},{_w or "default"}]', _mk_walk(_k, _wi, False), 'P', FNW,
                           f'carrier {_k}; walk({_w}); ONE mutation event: yield ordinal k over 0..60 (entry AND leave yields), {len(ACTIONS)} actions, send in {{none, False, True}} (all symbolic)',
@@ -241,9 +273,9 @@ for _k in SRCS:
         CELLS.append(Cell(f'P1.walk2[{_k},{WALKS[_wi] or "default"}]', _mk_walk(_k, _wi, True), 'P', FNW,
                           f'carrier {_k}; walk({WALKS[_wi]}); TWO mutation events at k1 < k2, each any of {len(ACTIONS)} actions and 3 send values (symbolic)',
                           tier='thorough', budget=900, per_path=60, reset=pc.reset_globals))
-for _k, _st, _wi in (('lists', 'value0', 0), ('lists', 'value0', 4), ('lists', 'value0', 3), ('calls', 'value0', 4), ('comps', 'stmt0', 6), ('comps', 'stmt0', 0), ('mixed', 'stmt0', 3), ('boolops', 'value0', 4)):
+for _k, _st, _wi in (('walrus', 'stmt0', 6), ('lists', 'value0', 0), ('lists', 'value0', 4), ('lists', 'value0', 3), ('calls', 'value0', 4), ('comps', 'stmt0', 6), ('comps', 'stmt0', 0), ('mixed', 'stmt0', 3), ('boolops', 'value0', 4)):
     CELLS.append(Cell(f'P1.walk[{_k},{WALKS[_wi] or "default"},from={_st}]', _mk_walk(_k, _wi, False, _st), 'P', FNW,
                       f'carrier {_k}; walk({WALKS[_wi]}) started at a NON-root node ({_st}), so the walk root itself can be replaced / removed when yielded; one mutation event as above',
-                      tier='quick' if (_k, _wi) in (('lists', 4), ('comps', 6), ('lists', 0)) else 'thorough', budget=900, per_path=60, reset=pc.reset_globals))
+                      tier='quick' if (_k, _wi) in (('lists', 4), ('comps', 6), ('lists', 0), ('walrus', 6)) else 'thorough', budget=900, per_path=60, reset=pc.reset_globals))
 CELLS.append(Cell('P2.search_mutate', p2_search_mutate, 'P', FNW + ['fst.match.search'], 'search(MName(a)) with replace (containing a new match) / remove / remove parent at a symbolic match ordinal',
                   budget=600, per_path=60, reset=pc.reset_globals))
